@@ -343,6 +343,77 @@ def k_corpus(ctx) -> None:
     ctx.cov["corpus_cases"] = len(files)
 
 
+def k_multi_column(ctx) -> None:
+    """Datasets with SEVERAL Time_Period components (an identifier and two nullable measures), nulls in some of them, through run()
+    for each output format: in memory AND written to an output folder (CSV) and read back.  Every non-null period must be in the
+    format's documented representation whatever else its datapoint holds, the file must hold what the in-memory result holds, and
+    the file fed back as input must denote the same periods."""
+    import pandas as pd
+    import engine
+    t0 = time.time()
+    ys = sorted(set(tier_years(ctx, 2) + [4]))
+    P.load_periods(ys)
+    spec, _sql = P.sql_string_rows()    # rows: [canonical, vtl, reporting, gregorian|~NONE, natural, spellings...] (tied to Period.render)
+    per = [r for k in sorted(spec) for r in spec[k]]
+    S = engine.structures(engine.ds_struct("DS_1", [("Id_1", "Integer", "Identifier", False), ("Id_2", "Time_Period", "Identifier", False),
+                                                    ("Me_1", "Time_Period", "Measure", True), ("Me_2", "Time_Period", "Measure", True)]))
+    nrows = 4000 if ctx.tier == "thorough" else 400
+    nruns = 0
+    for fi, fmt in enumerate(P.FMTS):
+        pool = [r for r in per if r[1 + fi] != "~NONE"]
+        render = {r[0]: r[1 + fi] for r in pool}
+        report = {r[0]: r[2] for r in pool}
+        rows = []
+        for k in range(nrows):
+            shape = k % 4                      # both measures, only Me_1, only Me_2, none
+            a, b, c = (ctx.rng.choice(pool)[0] for _ in range(3))
+            rows.append((k, a, b if shape in (0, 1) else None, c if shape in (0, 2) else None))
+        df = pd.DataFrame(rows, columns=["Id_1", "Id_2", "Me_1", "Me_2"])
+        want = [(k, render[a], render[b] if b else None, render[c] if c else None) for k, a, b, c in rows]
+        rep = {"kind": "multi", "rows": [list(r) for r in rows[:12]], "fmt": fmt}
+        mem = engine.run_case("DS_r <- DS_1;", S, {"DS_1": df}, time_period_output_format=fmt)
+        nruns += 1
+        ctx.count(("multi", "memory", fmt), 3 * nrows)
+        if not mem["ok"]:
+            ctx.violation(f"multi-column:{fmt}:memory:engine-error", f"run() ({fmt}) on a dataset with three Time_Period components raised {mem['err']}: {mem['msg'][:200]}", rep)
+            continue
+        got = sorted((r[0], r[1], r[2], r[3]) for r in D.rows_of(mem)[1])
+        bad = [(g, w) for g, w in zip(got, want) if g != w]
+        if bad:
+            ctx.violation(f"multi-column:{fmt}:memory:rendering-differs-from-documented",
+                          f"run() output format {fmt}, in memory: datapoint {bad[0][0]} but the documented rendering is {bad[0][1]} ({len(bad)} of {nrows} datapoints)",
+                          dict(rep, expected=list(bad[0][1]), observed=list(bad[0][0])))
+        with tempfile.TemporaryDirectory(prefix="c21_of_") as td:
+            res = engine.run_case("DS_r <- DS_1;", S, {"DS_1": df}, time_period_output_format=fmt, output_folder=td)
+            nruns += 1
+            ctx.count(("multi", "output_folder", fmt), 3 * nrows)
+            f = Path(td) / "DS_r.csv"
+            if not res["ok"] or not f.exists():
+                ctx.violation(f"multi-column:{fmt}:output_folder:engine-error", f"run(output_folder=...) ({fmt}) failed: {res.get('err')} {res.get('msg', '')[:200]}", rep)
+                continue
+            back = pd.read_csv(f, dtype=str, keep_default_na=False)
+            gotf = sorted((int(r.Id_1), r.Id_2, r.Me_1 or None, r.Me_2 or None) for r in back.itertuples())
+            bad = [(g, w) for g, w in zip(gotf, want) if g != w]
+            if bad or len(gotf) != len(want):
+                g, w = bad[0] if bad else (("rows", len(gotf)), ("rows", len(want)))
+                ctx.violation(f"multi-column:{fmt}:output_folder:rendering-differs-from-documented",
+                              f"run(output_folder=...) output format {fmt}: DS_r.csv holds datapoint {g} but the documented rendering is {w} "
+                              f"({len(bad)} of {nrows} datapoints; nulls in the other Time_Period components: {[x is None for x in w[2:]] if bad else ''})",
+                              dict(rep, expected=list(w), observed=list(g), output_folder=True))
+                continue
+            # the written file fed back as input denotes the same periods
+            res2 = engine.run_case("DS_r <- DS_1;", S, {"DS_1": f}, time_period_output_format="sdmx_reporting")
+            nruns += 1
+            want2 = [(k, report[a], report[b] if b else None, report[c] if c else None) for k, a, b, c in rows]
+            got2 = sorted((r[0], r[1], r[2], r[3]) for r in D.rows_of(res2)[1]) if res2["ok"] else [(res2["err"], res2["msg"][:150])]
+            if got2 != want2:
+                bad2 = [(g, w) for g, w in zip(got2, want2) if g != w][:1]
+                ctx.violation(f"multi-column:{fmt}:feedback:not-the-same-period", f"the {fmt} file written to output_folder, fed back as input: {bad2 or got2[:1]}",
+                              dict(rep, output_folder=True))
+    ctx.cov["k_multi_column_runs"] = nruns
+    ctx.log(f"K: {nruns} run() calls on datasets with three Time_Period components and partial nulls (memory + output_folder) in {time.time() - t0:.1f}s")
+
+
 def run(ctx):
     ctx.cov["rule"] = ("exhaustive on its domain: every valid period of the years taken (thorough: all of 1900-2100; quick: 14 of them) x (canonical form, parse, 4 renderings, every documented spelling) on the SQL "
                        "side and the Python side; sampled years of 0001-9999 pointwise; run()-level round trips; distinct = shard (indicator, year) "
@@ -351,7 +422,7 @@ def run(ctx):
     ctx.prove("C21")
     okm, out = common.coq_make(P.COQ_TARGETS)
     ctx.oblige("Model/Period.vo builds", okm, out[-300:])
-    for name, fn in (("k_corpus", k_corpus), ("x_strings", x_strings), ("x_sampled_years", x_sampled_years), ("x_py_shift", x_py_shift), ("k_run_roundtrip", k_run_roundtrip)):
+    for name, fn in (("k_corpus", k_corpus), ("x_strings", x_strings), ("x_sampled_years", x_sampled_years), ("x_py_shift", x_py_shift), ("k_run_roundtrip", k_run_roundtrip), ("k_multi_column", k_multi_column)):
         try:
             fn(ctx)
         except Exception as e:  # noqa
@@ -382,6 +453,19 @@ def replay(ctx, obj):
         print("script:", obj["script"], "rows:", obj["rows"])
         print("expected:", obj.get("expected"))
         print("observed:", [r[1] for r in D.rows_of(res)[1]] if res["ok"] else (res["err"], res["msg"][:300]))
+        return 1
+    if kind == "multi":
+        import pandas as pd
+        import engine
+        S = engine.structures(engine.ds_struct("DS_1", [("Id_1", "Integer", "Identifier", False), ("Id_2", "Time_Period", "Identifier", False),
+                                                        ("Me_1", "Time_Period", "Measure", True), ("Me_2", "Time_Period", "Measure", True)]))
+        df = pd.DataFrame(obj["rows"], columns=["Id_1", "Id_2", "Me_1", "Me_2"])
+        with tempfile.TemporaryDirectory(prefix="c21_of_") as td:
+            kw = {"output_folder": td} if obj.get("output_folder") else {}
+            res = engine.run_case("DS_r <- DS_1;", S, {"DS_1": df}, time_period_output_format=obj["fmt"], **kw)
+            print("input rows:", obj["rows"], "format:", obj["fmt"], "output_folder:", bool(kw))
+            print("expected (one datapoint):", obj.get("expected"))
+            print("observed:", (Path(td) / "DS_r.csv").read_text() if kw and res["ok"] else (D.rows_of(res)[1] if res["ok"] else (res["err"], res["msg"][:300])))
         return 1
     if kind == "py_sql":
         print(obj)
